@@ -10,9 +10,11 @@ package mask
 // begins, and the tail starts at the end of the last masked section.
 //
 // Requires what validation guarantees (VerifyGroupNumbers): every selected group
-// number is within 0..NumSubexp.  Nothing is known about the order of groups in
-// the text - KNOWN FINDING (open): nested or descending selected groups violate
-// the tiling condition (panic).
+// number is within 0..NumSubexp.  Nothing is assumed about the order of groups in
+// the text: a group that starts inside what is written already (nested in, or
+// listed after, a later group) is skipped or clipped, so the tiling condition holds
+// for every order (this was an open finding - panic - until repaired; compileMask
+// additionally sorts the groups so that text order is the order of writing).
 
 //@ func (*Mask).maskValue
 //@   requires m.Re_ != nil
